@@ -109,6 +109,15 @@ CHECKS = {
    note=TB + 'PARTIAL by nature: reference counts, the C++ exception paths and CPython behaviour are observed on the implementation (fault enumeration is exhaustive per scenario up to 40 (thorough: 400) positions, the scenario list is finite); the Coq theorems cover flatten, tree_map and the guard protocol. '
         'Keys whose __hash__ raises inside an OrderedDict are excluded: CPython\'s own OrderedDict.values() turns that into KeyError before optree runs.',
    design='§7 C15'),
+ 'C16': dict(
+   technique='Coq proof (exact depth threshold of flatten by induction on the budget; flatten-with-path and the agenda iterator reduced to it; mutation scripts by induction) + extracted-model correspondence (depth chains, every mutation script up to a size bound) + forked-child crash oracle over the mutation matrix, argument confusion and forged states; ASan/UBSan build in the thorough tier',
+   text='Theorems: for every configuration and every well-formed tree whose visited custom nodes behave, with d the number of nested visits, either d <= MAX_RECURSION_DEPTH+1 and flatten, flatten-with-path and the leaf iterator all succeed with the same leaves and treespec, or all three raise RecursionError (C16_same_threshold; no bound on size or depth); '
+        'chains of n one-child containers around a leaf or a childless node work iff n <= MAX; on clean trees flatten-with-path can fail in no other way; for EVERY script of mutations and every list (dict) the checked loop returns exactly the captured number of children or IndexError (KeyError), and the unchecked variant is refuted. '
+        'The run compares (cmd 17, cmd 1) the depth predicate and all three traversals with the model on chains of depth MAX-1..MAX+2 for 9 node kinds x 8 kinds of bottom (leaf, childless containers, None, childless/unregistered custom, predicate-accepted), checks 14 entry points for the same threshold and 18 operations on trees at the limit; '
+        'compares (cmd 16) all 5^n mutation scripts for n <= 4 (thorough 5) on lists and dicts under three recursive traversals; and runs in forked children: self-referential containers and never-ending custom flattens (RecursionError, no hang), a 3332-cell (container x callback x position x mutation x traversal) matrix, out-of-range child/entry/unflatten arguments, forged pickle states followed by 17 operations, and every public function of optree, optree._C and PyTreeSpec with random argument tuples from a pool of 48 confusing objects. A child killed by a signal or by the watchdog is the violation and its input the replay.',
+   note=TB + 'PARTIAL by nature: memory safety is observed (process status, ASan/UBSan reports in the thorough tier), not proved; the theorems cover the depth accounting and the bounds discipline of the list/dict loops. Cyclic structures are not objects of the inductive model: the theorem covers their unrollings (the traversal never looks deeper than MAX+2). '
+        'Found and fixed by this check: F16 (forged pickle states crashed the process). prefix_errors is pure Python recursion and is not required to raise at the same depth.',
+   design='§7 C16'),
  'C18': dict(
    technique='Coq proof (recognisers as functions of class traits, equal on every trait vector; cache invariant over all histories with address reuse) + model correspondence on a generated class universe + twin-vs-twin oracle',
    text='Theorems: the repaired Python namedtuple recogniser equals the engine\'s on every trait vector (refuted for the unchanged twin, defect F6); the struct-sequence recognisers agree whenever the n_* counters are not instances of a proper int subclass, and on every class definable in Python; '
